@@ -509,6 +509,11 @@ def run_property(core, pid, tier, seed, replay):
         key = line.split()[0] + ":" + ("panic" if impl == "panic" else "err" if impl.startswith("err") else "bad-op" if impl == "bad-op" else "ok")
         dist[key] = dist.get(key, 0) + 1
         if cfg["nontrivial"](line, impl): nontriv.add(line)
+        if "claim" in mkv: dist["claim=" + mkv["claim"]] = dist.get("claim=" + mkv["claim"], 0) + 1
+        for e in ("jit", "clif"):
+            if e in ikv:
+                ek = e + ":" + ikv[e].split(":")[0].split("=")[0]
+                dist[ek] = dist.get(ek, 0) + 1
         why = None
         if "viol" in ikv: why = ikv["viol"]
         elif "spec" in mkv and mkv["spec"] != impl: why = "implementation gives '%s' where the property's specification gives '%s'" % (impl, mkv["spec"])
